@@ -71,10 +71,8 @@ Section HistSem.
     | b :: bs' => match back_step st b with Some st' => sweep st' bs' | None => None end
     end.
 
-  (* the parameters the forward solve of a step ran with: the saved Params (nonlinear_solve_with_state), or objective.p as it was when the
-     forward pass ran with the design slot replaced (nonlinear_solve; pobj is not saved by the forward rule) *)
-  Definition p_fwd (b : bstep) (pobj : Par P) : Par P :=
-    if b_state b then e_psaved V P (b_env b) else upd P pobj 2 (e_dsaved V P (b_env b)).
+  (* the parameters the forward solve of a step ran with = what its forward rule saved (since /repo 42a60d0 for nonlinear_solve too: the whole Params) *)
+  Definition p_fwd (b : bstep) : Par P := e_psaved V P (b_env b).
 End HistSem.
 
 (* the forward passes, as far as objective.p is concerned.  pk_design / pk_state: with which parameters the primal of nonlinear_solve /
@@ -106,4 +104,16 @@ Section FwdSem.
     | c :: cs' => let '(pobj', u', p) := fwd_call pobj u (c u) in
                   let '(rec, pfin) := fwd_run pobj' u' cs' in ((pobj, p, u') :: rec, pfin)
     end.
+
+  (* the forward RULE: the primal, then what is saved for the reverse rule besides the solution.  fs_design / fs_state (regenerated): RestoreSaved = the
+     argument itself, RestoreSlot k = objective.p as the primal left it with slot k := the argument *)
+  Variables fs_design fs_state : restore_kind.
+  Definition fwd_saved (pobj_after : Par P) (c : fcall) : Par P :=
+    match c with
+    | FDesign d => match fs_design with RestoreSlot k => upd P pobj_after k d | _ => pobj_after end
+    | FState p => match fs_state with RestoreSaved => p | _ => pobj_after end
+    end.
+  (* (objective.p afterwards, solution, parameters the solve ran with, Params saved for the reverse rule) *)
+  Definition fwd_rule (pobj : Par P) (guess : V) (c : fcall) : Par P * V * Par P * Par P :=
+    let '(pobj', u, p) := fwd_call pobj guess c in (pobj', u, p, fwd_saved pobj' c).
 End FwdSem.
